@@ -27,7 +27,8 @@ class C06(Prop):
             "SOME order (existential replay of the reported creations; the rest must be no-ops). non-trivial = some insertion "
             "had K proposed by an anchored rule with |K| > |E| and some insertion had 0 < |K| <= |E|.")
     MODES = ("url",)
-    LONG_BIAS = 0.1
+    LONG_BIAS = 0.2
+    BACKENDS = ("file", "file", "memory")
     WEIGHTS = {"page": 6, "pages": 2, "links": 2, "batch": 2, "again": 1, "create": 2, "delete": 2, "addprefix": 1,
                "rmprefix": 1, "move": 1, "rule": 4, "unrule": 2, "reopen": 2, "clear": 1}
     QUICK = (40, 22)
